@@ -12,9 +12,12 @@ import (
 	"encoding/hex"
 	"encoding/json"
 	"fmt"
+	"strconv"
 	"strings"
 
 	"github.com/parquet-go/parquet-go"
+	"github.com/parquet-go/parquet-go/encoding/thrift"
+	"github.com/parquet-go/parquet-go/format"
 
 	"verif/harness/core"
 	"verif/harness/gen"
@@ -23,8 +26,9 @@ import (
 func main() { core.Main("C02", run, replay) }
 
 type c02Case struct {
-	Gen  gen.Case `json:"gen"`
-	Copy int      `json:"copy"` // 0: written directly; 1: re-written through WriteRowGroup with the same options; 2: with different options
+	Gen    gen.Case `json:"gen"`
+	Copy   int      `json:"copy"`             // 0: written directly; 1: re-written through WriteRowGroup with the same options; 2: with different options
+	Layout bool     `json:"layout,omitempty"` // also compare the file with the model writer of File/Layout.v
 }
 
 func expected(b *gen.Built, from, to int) (reps, defs, vals [][]string) {
@@ -165,8 +169,231 @@ func check(c *core.Ctx, cs c02Case) (nontrivial bool, bucket string) {
 	}
 	if from != len(b.Rows) {
 		c.Violation("row-count", fmt.Sprintf("the file holds %d rows, %d were written", from, len(b.Rows)), cs)
+		return true, bucket
+	}
+	if cs.Layout {
+		bucket += "/" + layoutCheck(c, cs, b, data, groups)
 	}
 	return len(b.Rows) >= 2, bucket
+}
+
+// ---- layout: the model writer of coq/theories/File/Layout.v against the bytes of the file ----
+//
+// The page structure of the file (raw page headers, bodies, rows per data page as the
+// specification decoder counted them, bloom filter and column index sections) and the footer
+// (for the fields that are not offsets / sizes / counts) are handed to the model writer
+// `layout`, whose offset accounting mirrors writer.go and is proved to produce files whose
+// recorded offsets and sizes describe the bytes (C02_layout_sound_*).  The model's file must
+// be the library's file, byte for byte.
+
+type region struct {
+	name     string
+	from, to int64
+}
+
+func decodeHeader(b []byte) (*format.PageHeader, int, error) {
+	h := new(format.PageHeader)
+	pr := new(thrift.CompactProtocol).NewReaderFromBytes(b)
+	if err := thrift.NewDecoder(pr).Decode(h); err != nil {
+		return nil, 0, err
+	}
+	return h, pr.BytesRead(), nil
+}
+
+func sliceOf(data []byte, off, n int64) ([]byte, bool) {
+	if off < 0 || n < 0 || off+n > int64(len(data)) {
+		return nil, false
+	}
+	return data[off : off+n], true
+}
+
+// accounted lists every offset / size / count of the metadata that the writer derives from the pages.
+func accounted(f *parquet.File) []string {
+	md := f.Metadata()
+	out := []string{fmt.Sprintf("FileMetaData.NumRows=%d", md.NumRows)}
+	for gi, g := range md.RowGroups {
+		p := fmt.Sprintf("RowGroup[%d].", gi)
+		out = append(out, fmt.Sprintf("%sFileOffset=%d", p, g.FileOffset), fmt.Sprintf("%sTotalByteSize=%d", p, g.TotalByteSize),
+			fmt.Sprintf("%sTotalCompressedSize=%d", p, g.TotalCompressedSize), fmt.Sprintf("%sNumRows=%d", p, g.NumRows), fmt.Sprintf("%sOrdinal=%d", p, g.Ordinal))
+		for ci, cc := range g.Columns {
+			q := fmt.Sprintf("%sColumn[%d].", p, ci)
+			m := cc.MetaData
+			out = append(out, fmt.Sprintf("%sFileOffset=%d", q, cc.FileOffset), fmt.Sprintf("%sNumValues=%d", q, m.NumValues),
+				fmt.Sprintf("%sTotalUncompressedSize=%d", q, m.TotalUncompressedSize), fmt.Sprintf("%sTotalCompressedSize=%d", q, m.TotalCompressedSize),
+				fmt.Sprintf("%sDataPageOffset=%d", q, m.DataPageOffset), fmt.Sprintf("%sDictionaryPageOffset=%d", q, m.DictionaryPageOffset),
+				fmt.Sprintf("%sBloomFilterOffset=%d", q, m.BloomFilterOffset), fmt.Sprintf("%sBloomFilterLength=%d", q, m.BloomFilterLength),
+				fmt.Sprintf("%sOffsetIndexOffset=%d", q, cc.OffsetIndexOffset), fmt.Sprintf("%sOffsetIndexLength=%d", q, cc.OffsetIndexLength),
+				fmt.Sprintf("%sColumnIndexOffset=%d", q, cc.ColumnIndexOffset), fmt.Sprintf("%sColumnIndexLength=%d", q, cc.ColumnIndexLength))
+		}
+	}
+	ncols := 0
+	if len(md.RowGroups) > 0 {
+		ncols = len(md.RowGroups[0].Columns)
+	}
+	for i, oi := range f.OffsetIndexes() {
+		for j, l := range oi.PageLocations {
+			q := "?"
+			if ncols > 0 {
+				q = fmt.Sprintf("RowGroup[%d].Column[%d].", i/ncols, i%ncols)
+			}
+			out = append(out, fmt.Sprintf("%sPageLocation[%d].Offset=%d", q, j, l.Offset), fmt.Sprintf("%sPageLocation[%d].CompressedPageSize=%d", q, j, l.CompressedPageSize),
+				fmt.Sprintf("%sPageLocation[%d].FirstRowIndex=%d", q, j, l.FirstRowIndex))
+		}
+	}
+	return out
+}
+
+func layoutCheck(c *core.Ctx, cs c02Case, b *gen.Built, data []byte, groups []string) string {
+	f, err := parquet.OpenFile(bytes.NewReader(data), int64(len(data)))
+	if err != nil {
+		c.Violation("library-cannot-reopen", "the library cannot open the file it wrote: "+core.Trunc(err.Error(), 200), cs)
+		return "layout:unopened"
+	}
+	md := f.Metadata()
+	flen := int64(uint32(data[len(data)-8]) | uint32(data[len(data)-7])<<8 | uint32(data[len(data)-6])<<16 | uint32(data[len(data)-5])<<24)
+	footerStart := int64(len(data)) - 8 - flen
+	regions := []region{{"magic", 0, 4}, {"footer (FileMetaData)", footerStart, footerStart + flen}, {"footer length", footerStart + flen, footerStart + flen + 4}, {"trailing magic", int64(len(data)) - 4, int64(len(data))}}
+	if len(groups) != len(md.RowGroups) {
+		c.Mismatch("corr:C02.layout_walk", b.Root.Text(), fmt.Sprintf("%d row groups", len(md.RowGroups)), fmt.Sprintf("%d row groups decoded", len(groups)), cs)
+		return "layout:walk"
+	}
+	var gtoks []string
+	for gi, g := range md.RowGroups {
+		hdr := strings.SplitN(groups[gi], "#", 2)
+		chunks := strings.Split(hdr[1], ";")
+		var ctoks []string
+		for ci, cc := range g.Columns {
+			m := cc.MetaData
+			fields := map[string]string{}
+			for _, kv := range strings.Split(chunks[ci], "/") {
+				if i := strings.IndexByte(kv, '='); i > 0 {
+					fields[kv[:i]] = kv[i+1:]
+				}
+			}
+			var reps, nvals []string
+			if fields["R"] != "_" {
+				reps = strings.Split(fields["R"], ",")
+			}
+			if fields["N"] != "" {
+				nvals = strings.Split(fields["N"], ",")
+			}
+			start := m.DataPageOffset
+			if m.DictionaryPageOffset > 0 && m.DictionaryPageOffset < start {
+				start = m.DictionaryPageOffset
+			}
+			end := start + m.TotalCompressedSize
+			pos, dataPage, repAt := start, 0, 0
+			var ptoks []string
+			for pos < end {
+				win, ok := sliceOf(data, pos, end-pos)
+				if !ok {
+					c.Mismatch("corr:C02.layout_walk", b.Root.Text(), fmt.Sprintf("chunk %d/%d spans %d..%d of %d bytes", gi, ci, start, end, len(data)), "", cs)
+					return "layout:walk"
+				}
+				h, hlen, err := decodeHeader(win)
+				if err != nil || int64(hlen)+int64(h.CompressedPageSize) > end-pos || h.CompressedPageSize < 0 {
+					c.Mismatch("corr:C02.layout_walk", b.Root.Text(), fmt.Sprintf("chunk %d/%d: page header at %d unreadable by the library's thrift decoder (%v)", gi, ci, pos, err), "", cs)
+					return "layout:walk"
+				}
+				body := win[hlen : hlen+int(h.CompressedPageSize)]
+				rows := 0
+				if h.Type != format.DictionaryPage {
+					if dataPage >= len(nvals) {
+						c.Mismatch("corr:C02.layout_walk", b.Root.Text(), fmt.Sprintf("chunk %d/%d: more data pages than the specification decoder found", gi, ci), "", cs)
+						return "layout:walk"
+					}
+					n, _ := strconv.Atoi(nvals[dataPage])
+					for k := repAt; k < repAt+n && k < len(reps); k++ {
+						if reps[k] == "0" {
+							rows++
+						}
+					}
+					repAt += n
+					dataPage++
+				}
+				regions = append(regions, region{fmt.Sprintf("row group %d column %d page at %d: header", gi, ci, pos), pos, pos + int64(hlen)},
+					region{fmt.Sprintf("row group %d column %d page at %d: body", gi, ci, pos), pos + int64(hlen), pos + int64(hlen) + int64(h.CompressedPageSize)})
+				ptoks = append(ptoks, fmt.Sprintf("x%s:x%s:%x", hex.EncodeToString(win[:hlen]), hex.EncodeToString(body), rows))
+				pos += int64(hlen) + int64(h.CompressedPageSize)
+			}
+			var bloom, cindex []byte
+			if m.BloomFilterOffset > 0 {
+				bloom, _ = sliceOf(data, m.BloomFilterOffset, int64(m.BloomFilterLength))
+				regions = append(regions, region{fmt.Sprintf("row group %d column %d bloom filter", gi, ci), m.BloomFilterOffset, m.BloomFilterOffset + int64(m.BloomFilterLength)})
+			}
+			if cc.ColumnIndexOffset > 0 {
+				cindex, _ = sliceOf(data, cc.ColumnIndexOffset, int64(cc.ColumnIndexLength))
+				regions = append(regions, region{fmt.Sprintf("row group %d column %d column index", gi, ci), cc.ColumnIndexOffset, cc.ColumnIndexOffset + int64(cc.ColumnIndexLength)})
+			}
+			regions = append(regions, region{fmt.Sprintf("row group %d column %d offset index", gi, ci), cc.OffsetIndexOffset, cc.OffsetIndexOffset + int64(cc.OffsetIndexLength)})
+			ctoks = append(ctoks, fmt.Sprintf("x%s/x%s/%s", hex.EncodeToString(bloom), hex.EncodeToString(cindex), joinSep(ptoks, "+")))
+		}
+		gtoks = append(gtoks, strings.Join(ctoks, ";"))
+	}
+	ans := c.Ask("c02.layout x" + hex.EncodeToString(data[footerStart:footerStart+flen]) + " " + joinSep(gtoks, "|"))
+	parts := strings.Split(ans, " ")
+	if len(parts) != 2 || !strings.HasPrefix(parts[0], "x") {
+		c.Mismatch("corr:C02.layout_model", b.Root.Text(), "", core.Trunc(ans, 200), cs)
+		return "layout:model-error"
+	}
+	model, _ := hex.DecodeString(parts[0][1:])
+	verdict := "layout-theorems-apply"
+	if parts[1] != "1" {
+		verdict = "layout-side-conditions-not-met"
+	}
+	if bytes.Equal(model, data) {
+		return verdict
+	}
+	// not byte-identical: name what differs
+	if mf, err := parquet.OpenFile(bytes.NewReader(model), int64(len(model))); err == nil {
+		am, al := accounted(mf), accounted(f)
+		for i := 0; i < len(am) && i < len(al); i++ {
+			if am[i] != al[i] {
+				name := al[i][:strings.IndexByte(al[i], '=')]
+				short := name[strings.LastIndexByte(name, '.')+1:]
+				c.Violation("layout:"+short, fmt.Sprintf("the file records %s but the offset accounting of the writer (model File/Layout.v, whose recorded offsets and sizes are proved to describe the bytes) gives %s for the same pages; schema %s options %+v", al[i], am[i], b.Root.Text(), b.Opts), cs)
+				return "layout:differs"
+			}
+		}
+		if len(am) != len(al) {
+			c.Violation("layout:structure", fmt.Sprintf("the file records %d offsets/sizes/counts, the model %d; schema %s", len(al), len(am), b.Root.Text()), cs)
+			return "layout:differs"
+		}
+	}
+	at := 0
+	for at < len(model) && at < len(data) && model[at] == data[at] {
+		at++
+	}
+	where := "between the sections the metadata describes (gap or overlap)"
+	for _, r := range regions {
+		if int64(at) >= r.from && int64(at) < r.to {
+			where = r.name
+			break
+		}
+	}
+	lo, hi := at-8, at+24
+	if lo < 0 {
+		lo = 0
+	}
+	clip := func(x []byte) string {
+		h := hi
+		if h > len(x) {
+			h = len(x)
+		}
+		if lo > h {
+			return ""
+		}
+		return hex.EncodeToString(x[lo:h])
+	}
+	c.Mismatch("corr:C02.layout_bytes", fmt.Sprintf("%s; first difference at byte %d in: %s (file %d bytes, model %d bytes)", b.Root.Text(), at, where, len(data), len(model)), clip(data), clip(model), cs)
+	return "layout:differs"
+}
+
+func joinSep(l []string, sep string) string {
+	if len(l) == 0 {
+		return "_"
+	}
+	return strings.Join(l, sep)
 }
 
 func runCase(c *core.Ctx, cs c02Case, sample bool) {
@@ -210,6 +437,7 @@ func run(c *core.Ctx) {
 		case 1:
 			cs.Copy = 2
 		}
+		cs.Layout = true
 		runCase(c, cs, i < 3)
 	}
 	// thrift: decode(encode) on the footers is exercised by every file; additionally the
